@@ -88,6 +88,16 @@ def judge(case, rep, S):
                  sig={"L": L, "p": p, "n": n})
     if L < 5 and got != 0:
         rep.viol("short_sequence_nonzero", "length %d < 5 must give 0, got %r for %s" % (L, got, seq))
+    if case["k"] == "seq" and L <= 150 and rep.evaluations % 3 == 0:
+        # backend object built from lower-/mixed-case text (the backend upper-cases it) behind a front-end handle
+        rngc = gen.sub_rng(0, "case", seq)
+        mixed = "".join(c.lower() if rngc.random() < 0.6 else c for c in seq)
+        wrapped = S["SP"](SeqObj=S["Sequence"](mixed))
+        wgot = wrapped.get_delta()
+        rep.cnt("backend_lowercase_objects")
+        if wrapped.get_sequence() != seq or not M.close(float(wgot), float(want)):
+            rep.viol("delta_value_wrapped_backend_object", "SequenceParameters(SeqObj=Sequence(%r)) reports sequence %s and delta %r; the definition gives %r" % (
+                mixed, wrapped.get_sequence(), wgot, float(want)), sig={"L": L})
     # objects that reach the user by another route than the constructor: a (partly frozen) shuffle of the object
     if case["k"] == "seq" and 2 <= L <= 150:
         rng = gen.sub_rng(0, "shuffle", seq)
